@@ -200,7 +200,19 @@ class GenError(Exception):
         return f"{self.phase}:{type(self.exc).__name__}" if self.phase != "compile" else "compile-error"
 
 
-def make_scheme_mod(backend: str, ode, model, alias: str, remove_unused=False, extra_schemes=(), **scheme_kwargs):
+def new_generator(backend: str, ode, remove_unused=False):
+    """a CodeGenerator object as a library user would hold it (one object, many requests)"""
+    if backend == "C":
+        from gotranx.codegen.c import CCodeGenerator, Format
+
+        return CCodeGenerator(ode, format=Format.none, remove_unused=remove_unused)
+    from gotranx.codegen.python import PythonCodeGenerator, Format
+    from gotranx.codegen.jax import JaxCodeGenerator
+
+    return (PythonCodeGenerator if backend == "numpy" else JaxCodeGenerator)(ode, format=Format.none, remove_unused=remove_unused)
+
+
+def make_scheme_mod(backend: str, ode, model, alias: str, remove_unused=False, extra_schemes=(), cg=None, **scheme_kwargs):
     """module = get_code(...) (with extra_schemes) + CodeGenerator.scheme(get_scheme(alias), **scheme_kwargs):
     the route by which every accepted scheme name (euler, rush_larsen, ...) is reachable."""
     import warnings
@@ -210,16 +222,11 @@ def make_scheme_mod(backend: str, ode, model, alias: str, remove_unused=False, e
         with warnings.catch_warnings():
             warnings.simplefilter("ignore")
             f = get_scheme(alias)
+            if cg is None:
+                cg = new_generator(backend, ode, remove_unused)
             if backend == "C":
-                from gotranx.codegen.c import CCodeGenerator, Format
-
-                cg = CCodeGenerator(ode, format=Format.none, remove_unused=remove_unused)
                 base = B.c_code(ode, schemes=list(extra_schemes) or None, remove_unused=remove_unused, delta=scheme_kwargs.get("delta", 1e-8))
             else:
-                from gotranx.codegen.python import PythonCodeGenerator, Format
-                from gotranx.codegen.jax import JaxCodeGenerator
-
-                cg = (PythonCodeGenerator if backend == "numpy" else JaxCodeGenerator)(ode, format=Format.none, remove_unused=remove_unused)
                 base = B.py_code(ode, schemes=list(extra_schemes) or None, backend=backend, remove_unused=remove_unused, delta=scheme_kwargs.get("delta", 1e-8))
             code = base + "\n" + cg.scheme(f, **scheme_kwargs)
     except Exception as ex:
